@@ -17,8 +17,9 @@ def main():
     if os.path.exists(dest):
         shutil.rmtree(dest)
     os.makedirs(dest)
+    src_repo = os.environ.get("MEMCHR_VERIF_REPO", "/repo").rstrip("/")
     subprocess.check_call(["rsync", "-a", "--exclude", "target", "--exclude", ".git", "--exclude", "benchmarks",
-                           "--exclude", "fuzz", "/repo/", repo + "/"])
+                           "--exclude", "fuzz", src_repo + "/", repo + "/"])
     n_rewrites = 0
     for root, _, files in os.walk(os.path.join(repo, "src")):
         for f in files:
@@ -60,7 +61,7 @@ def main():
     h = os.path.join(dest, "harness")
     shutil.copytree(os.path.join(ROOT, "harness"), h, ignore=shutil.ignore_patterns("target"))
     ct = os.path.join(h, "Cargo.toml")
-    s = open(ct).read().replace('path = "/repo"', 'path = "%s"' % repo)
+    s = re.sub(r'memchr = \{ path = "[^"]*"', 'memchr = { path = "%s"' % repo, open(ct).read())
     open(ct, "w").write(s)
     cfg = os.path.join(h, ".cargo/config.toml")
     s = open(cfg).read().replace('rustflags = ["--cfg", "memchr_verif"]',
